@@ -22,7 +22,7 @@ import PromVerif.Model.Multiprocess
 
 namespace PromVerif.Spec.Multiprocess
 open PromVerif.Py
-open PromVerif.Model.Multiprocess (Key VOps BOps Labels SKey AL)
+open PromVerif.Model.Multiprocess
 
 set_option autoImplicit false
 
